@@ -318,6 +318,7 @@ Proof.
       split; [apply return_slice_inv; assumption|]. split; [congruence|]. split; [congruence|]. split; [congruence|].
       apply detached_return_slice; assumption.
     - inversion Heq; subst sA ob; clear Heq. split; [exact I|split; [reflexivity|split; [reflexivity|split; [reflexivity|apply Hd; congruence]]]]. }
+  destruct (Nat.ltb cur required && match tier_of required with None => true | Some _ => false end); [discriminate|].
   destruct (if Nat.ltb cur required then _ else _) as [sA ob] eqn:Heq.
   destruct ob as [b|]; [|discriminate].
   destruct (Step sA (Some b) eq_refl b eq_refl) as (IA & LA & NA & SA & DA).
